@@ -1,6 +1,7 @@
 package main
 
 import (
+	"bytes"
 	"fmt"
 
 	simdjson "github.com/minio/simdjson-go"
@@ -42,9 +43,32 @@ func (w *W) c13History(st *histState, g string, doc []byte, hseed int64, nops in
 	cfg := w.configs()[r.Intn(len(w.configs()))]
 	var pj *simdjson.ParsedJson
 	var err error
-	if r.Bool() {
+	orig := append([]byte{}, doc...)
+	defer func() {
+		// edits go to the tape and the string buffer; the caller's input is never written to
+		if !bytes.Equal(orig, doc) {
+			w.Violation("C13/input-buffer-modified", fmt.Sprintf("after the history the caller's input buffer differs from what was parsed (%s); doc=%s", cfg, q(orig)), cs)
+			copy(doc, orig)
+		}
+	}()
+	switch {
+	case hseed%3 == 2:
+		// the document as Deserialize hands it out: every string lives in Message, equal strings
+		// are stored once and shared by all their occurrences
+		var p *simdjson.ParsedJson
+		p, err, _ = w.parseGuarded(doc, cfg, false, false)
+		if err == nil {
+			walk.Guard(func() error {
+				s := simdjson.NewSerializer()
+				s.CompressMode(compModes[int(hseed/3)%4])
+				pj, err = s.Deserialize(s.Serialize(nil, *p), nil)
+				return nil
+			})
+			w.Count("histories_on_deserialized_documents", 1)
+		}
+	case r.Bool():
 		pj, err, _ = w.parseGuarded(doc, cfg, false, true)
-	} else {
+	default:
 		var p *simdjson.ParsedJson
 		p, err, _ = w.parseGuarded(doc, cfg, false, false)
 		if err == nil {
@@ -147,6 +171,9 @@ func (w *W) editDocs(nHist int, fn func(g string, doc []byte, k int)) {
 		`{"":"","x":{"":[""]}}`,
 		`[[[[1]]],{"a":{"b":{"c":"deep"}}}]`,
 		`{"n":[1,2,3,4,5,6],"s":["a","b","c"],"m":[1,"a",null]}`,
+		// the same text many times, as key and as value (stored once by the serializer)
+		`{"name":"name","tags":["name","café","café","name"],"café":"name","o":{"name":"café"}}`,
+		`[["same-long-string-value","same-long-string-value"],{"same-long-string-value":"same-long-string-value"},"same-long-string-value"]`,
 	}
 	for k := 0; k < nHist; k++ {
 		rr := r.Split()
